@@ -129,8 +129,16 @@ def run_machine_models(ctx, evals, mn, par=2, workers=6):
     res = {}
     def one(e):
         cfg = "CONSTANTS E = \"%s\"\nMK <- MCKinds\nMN = %d\nSPECIFICATION MFair\nCHECK_DEADLOCK FALSE\nINVARIANT %s\nPROPERTY Terminates\n" % (e, mn, " ".join(MACHINE_INV))
-        r = vlib.tlc("MCParserMachine", cfg, "%s_machine_%s" % (ctx.prop, e), workers=workers, timeout=3 * 3600)
+        r = vlib.tlc("MCParserMachine", cfg, "%s_machine_%s" % (ctx.prop, e), workers=workers, timeout=3 * 3600, coverage=True)
         r.update({"e": e, "N": mn, "beh": 0, "beh_path": None, "samples": [], "machine": True})
+        # vacuity: every action of the machine must have been taken (an action never taken means its part of the parser was never exercised)
+        acts = ["GenEnter", "GenAfterNum", "GenLoop", "GenAfterConv", "PNumStep", "SignAfter", "EnclAfter", "StaticLp", "StaticArg", "StaticAfter",
+                "ItemsLp", "ItemsTop", "ItemsAfter", "ImplTest", "ImplAfter", "ConvStep", "ConvAfter", "Finish"]
+        cov = {k.split(".", 1)[1]: v for k, v in r["coverage"].items() if k.startswith("ParserMachine.")}
+        never = [a for a in acts if a in cov and cov[a]["taken"] == 0]
+        r["action_coverage"] = {a: cov[a]["taken"] for a in acts if a in cov}
+        if cov and never and not r["violated"]:
+            raise ToolError("MCParserMachine %s: actions never taken: %s" % (e, never))
         return e, r
     with cf.ThreadPoolExecutor(max_workers=par) as ex:
         for e, r in ex.map(one, evals):
@@ -346,7 +354,7 @@ def grammar_check(ctx, cats, n_quick, n_thorough, opts, evals=EVALS, invs=None, 
     if machines:
         cov["states"] += sum(r["distinct"] for r in machines.values())
         cov["transitions"] += sum(r["states"] for r in machines.values())
-        cov["parser_machine"] = {k: {"MN": r["N"], "states": r["distinct"], "depth": r["depth"], "invariants": MACHINE_INV} for k, r in machines.items()}
+        cov["parser_machine"] = {k: {"MN": r["N"], "states": r["distinct"], "depth": r["depth"], "invariants": MACHINE_INV, "transitions_per_action": r.get("action_coverage", {})} for k, r in machines.items()}
     if pt:
         cov["parser_trace"] = {"records": pt["records"], "driven_through_ParserMachine": pt["stepped"], "events_matched": pt["events"]}
         cov["traces_validated_against_impl"] += pt["stepped"]
